@@ -8,8 +8,8 @@
    sequences (with arbitrary requests on other keys, outages and clock advances in between). *)
 From Coq Require Import List ZArith String Bool.
 From GZ Require Import Lib.RedisStore C03.Model C03.GenProofs C03.ProofsBucket C03.ProofsPeriod
-                       C03.ProofsPeriodSpec C03.ProofsToken C03.Proofs.
-From GZgen Require Lua_period Lua_token.
+                       C03.ProofsPeriodSpec C03.ProofsToken C03.Proofs C03.ProofsMore.
+From GZgen Require Lua_period Lua_token C03Consts.
 Import ListNotations.
 Open Scope string_scope.
 Open Scope Z_scope.
@@ -170,6 +170,66 @@ Theorem rescue_local_bound : forall rt bs calls b t0,
 Proof. exact rescue_local_bound_all. Qed.
 Print Assumptions rescue_local_bound.
 
+(* RESCUE (LOCAL) BOUND, EXACT.  Since the repair 9e9cefb the in-process limiter is
+   xrate.NewLimiter(xrate.Limit(rate), burst).  For its ideal version - [exact_run]: rate tokens
+   per second, capacity burst, in units of 10^-9 token and ns - over any calls in time order:
+   granted <= burst + rate * elapsed, the property's bound verbatim.  Check.prop_ok checks this
+   inequality (with 2 ns of slack for x/time/rate's truncation of waiting times) over every
+   interval of the decisions the real limiter took in rescue mode; [rescue_local_bound] above is the
+   weaker bound of the pinned construction (Pinned.rescue_truncated_interval_refuted). *)
+Theorem rescue_exact_bound : forall rt bs calls b t0,
+  0 <= rt -> 0 <= bs -> 0 <= btokens b -> calls_ok t0 calls ->
+  local_granted calls (exact_run rt bs b calls) * 1000000000
+    <= bs * 1000000000 + rt * (last_time t0 calls - t0).
+Proof. exact rescue_exact_bound_all. Qed.
+Print Assumptions rescue_exact_bound.
+
+(* PERIOD: A FAULTED CALL IS NEVER A GRANT.  A TakeCtx whose context is already done (the
+   command is not sent) or whose command is answered by a faulty store with anything that is not
+   a verdict of the script - an error reply, nil, a string, a number outside 0..2 - answers
+   (Unknown, error) and changes nothing; whatever the reply, an error never comes with a code. *)
+Theorem period_fault_never_grants : forall c s key f,
+  fst (pstep c s (PTakeF key f)) = s /\
+  (pforged f = false -> snd (pstep c s (PTakeF key f)) = PAns Unknown true) /\
+  (forall cd e, snd (pstep c s (PTakeF key f)) = PAns cd e -> (e = true -> cd = Unknown)).
+Proof. exact period_fault_all. Qed.
+Print Assumptions period_fault_never_grants.
+
+(* TOKEN: A FAULTED CALL.  Instance i is on the shared bucket (alive, no monitor running) and the
+   store answers its command with [r] instead of running the script: the store content does not
+   change; nil or a number other than 1 is a refusal and the instance stays on the store; an error
+   reply or a non-integer reply starts the monitor, switches the instance to its in-process
+   limiter and the answer is that limiter's (bounded by [rescue_exact_bound]).  Only the literal
+   reply 1 is a grant. *)
+Theorem token_fault_refuses_or_falls_back : forall c s i now n rescue r t,
+  nth_error (tinsts s) i = Some t -> alive t = true -> monitor t = false ->
+  let s' := fst (tstep c s (TAllowF i now n rescue r)) in
+  let ob := snd (tstep c s (TAllowF i now n rescue r)) in
+  tstore s' = tstore s /\ tdown s' = tdown s /\
+  match r with
+  | RNil => ob = TR false true true /\ nth_error (tinsts s') i = Some t
+  | RInt code => ob = TR (code =? 1) true true /\ nth_error (tinsts s') i = Some t
+  | _ => ob = TR rescue false false /\ nth_error (tinsts s') i = Some (mkT false true)
+  end.
+Proof. exact token_fault_all. Qed.
+Print Assumptions token_fault_refuses_or_falls_back.
+
+(* a call made with an already cancelled context: nothing changes; an instance on the shared
+   bucket refuses (and does NOT fall back), an instance in rescue mode asks its local limiter *)
+Theorem token_cancelled_context : forall c s i now n rescue t,
+  nth_error (tinsts s) i = Some t ->
+  tstep c s (TAllowC i now n rescue) =
+  (s, if alive t then TR false true false else TR rescue false false).
+Proof. exact token_cancel_all. Qed.
+Print Assumptions token_cancelled_context.
+
+(* the two Redis keys of a limiter (fmt.Sprintf of today's tokenFormat / timestampFormat, read from
+   the source) are different for every key string: hypothesis [ktokens c <> kts c] of the token
+   theorems holds for every TokenLimiter *)
+Theorem token_keys_distinct : forall key, tokens_key key <> ts_key key.
+Proof. exact token_keys_distinct_all. Qed.
+Print Assumptions token_keys_distinct.
+
 (* ---- non-vacuity ---- *)
 Definition ex_cfg := mkCfg 5 2 (BStr "{tk}.tokens") (BStr "{tk}.ts").   (* 2*burst < rate *)
 Definition ex_ops : list top :=
@@ -201,3 +261,16 @@ Proof. vm_compute. reflexivity. Qed.
 Example ex_aligned :
   window (mkPC 5 86400 true 28800) 1700000000999 = 64000 /\ (1700000000 + 28800 + 64000) mod 86400 = 0.
 Proof. vm_compute. split; reflexivity. Qed.
+
+(* faults in one history: a cancelled context, an error reply (fallback), a forged nil, recovery *)
+Example ex_fault_run :
+  trun ex_cfg (tinit true 1700000000400 2)
+    [TAllowC 0 1700000000400 1 true; TAllowF 0 1700000000400 1 true (RErr EConn); TAllowC 0 1700000000400 1 false;
+     TAllowF 1 1700000000400 1 true RNil; TAllow 1 1700000000400 1 true true; TPing 0; TAllow 0 1700000000400 1 false true] =
+  [TR false true false; TR true false false; TR false false false; TR false true true; TR true true true; TU; TR true true true].
+Proof. vm_compute. reflexivity. Qed.
+Example ex_pfault_run :
+  prun ex_pcfg (pinit true 0) [PTakeF (BStr "p:a") FCtx; PTakeF (BStr "p:a") (FReply (RInt 7)); PTakeF (BStr "p:a") (FReply (RBulk (BInt 1)));
+                               PTake (BStr "p:a") true] =
+  [PAns Unknown true; PAns Unknown true; PAns Unknown true; PAns Allowed false].
+Proof. vm_compute. reflexivity. Qed.
